@@ -64,7 +64,7 @@ def correspond(ctx, proof_ok=True):
         workdir = os.path.join(ctx.work, target)
         states = [dict(zip(names, combo)) for combo in itertools.product(['orig-value', None], repeat=len(names))]
         variants = [{'rescore': False, 'stub_score': True}, {'rescore': True, 'stub_score': True},
-                    {'rescore': False, 'stub_score': False}] if target == 'window_score' else [{'flux': False}]
+                    {'rescore': False, 'stub_score': False}] if target == 'window_score' else [{'flux': False}, {'flux': False, 'method': 'hmf'}]
         if target == 'template_input' and ctx.thorough:
             variants.append({'flux': True})
         base = []
